@@ -56,6 +56,12 @@ STATS = {}
 
 def cases(ctx):
     rng = ctx.rng
+    # encoded data held in the narrow count dtype whose running totals pass the range of that dtype
+    for dt_, big in (("uint8", 200), ("int8", 100), ("uint16", 40000)):
+        yield {"kind": "brle_ops", "brle": [big, big, 3, 5], "dtype": dt_, "idx": [0, big - 1, big, 2 * big - 1, 2 * big + 4],
+               "idx_list": False, "mask": [1] * (2 * big + 8)}
+        yield {"kind": "rle_ops", "rle": [[0, big], [1, big], [0, 4], [1, 4]], "dtype": dt_,
+               "idx": [0, big - 1, big, 2 * big - 1, 2 * big + 5], "idx_list": True, "mask": [1] * (2 * big + 8)}
     if ctx.tier == "thorough":
         for n in range(1, 11):
             for bits in itertools.product([0, 1], repeat=n):
